@@ -476,6 +476,23 @@ def lazyAttrs (op : LazyOp) (a b : FAttr) : FAttr :=
     ⟨rid.getD "Unknown", r.1, r.2⟩           -- `setId` only `if rank_id is not None`
   | _ => ⟨a.id, a.lo, a.hi⟩
 
+/-- the default a lazy result reports (`getDefault()`): a scalar, or the tuple
+    `("", d_1, …, d_n)` of a union-like result (the mask slot is not represented) -/
+inductive LDflt
+  | scalar (v : Int)
+  | mask (ds : List Int)
+  deriving DecidableEq, Repr
+
+/-- as the code has it: `| ^` and `union` set `("", defaults…)`, `-`, `prune`, `project` copy the first
+    operand's default, everything else keeps the 0 of the fresh `Fiber()` made by `fromIterator`;
+    `nUnion` = number of operands of `Fiber.union` after the first -/
+def lazyDefault (op : LazyOp) (da db : Int) (nUnion : Nat) : LDflt :=
+  match op with
+  | .or | .xor => .mask [da, db]
+  | .union => .mask (da :: List.replicate nUnion db)
+  | .sub | .prune | .project .. => .scalar da
+  | _ => .scalar 0
+
 /-- the statement: first operand's id (the requested target id for a projection that names one),
     and the active range the operation defines -/
 def lazySpec (op : LazyOp) (a b : FAttr) : FAttr :=
